@@ -140,7 +140,7 @@ Walk(t, P, i, st, pg, relax, acc) ==
                      ELSE Walk(t, P, i + 1, Next(t.kind, P, st, e.act), e.g,
                                \* the abstract versions are not predicted any more after a call that raised or after a
                                \* PIT mask switch (it changes which coefficients an optimizer step can move)
-                               relax \/ e.err # "" \/ (e.act.a = "opt" /\ e.act.o \in {"train_features", "train_rf", "train_dilation"}),
+                               relax \/ e.err # "" \/ (e.act.a = "opt" /\ e.act.o \in {"train_features", "train_rf", "train_dilation", "gumbel"}),
                                Worse(acc, v))
 
 Check(t) ==
